@@ -140,4 +140,560 @@ theorem vose_fixed_alias_in_range (p : List Rat) (avg : Rat) :
     have : ¬ (al (vf_exit p avg) x = p.length) := by simpa using hne
     omega
 
+/-! ## one iteration, as facts about `pr`, `al` and the cursors -/
+
+theorem vf_step_if_eq (n : Nat) (avg : Rat) (st : Vose)
+    (h : pr st st.large + pr st st.small - avg < avg) :
+    voseStepFixed n avg st =
+      ⟨st.prob.set st.large (pr st st.large + pr st st.small - avg),
+       st.alias.set st.small st.large, st.large,
+       scanFrom (fun i => decide ((st.prob.set st.large
+          (pr st st.large + pr st st.small - avg)).getD i 0 < avg)) n n (st.large + 1),
+       st.cp⟩ := by
+  unfold voseStepFixed
+  exact if_pos h
+
+theorem vf_step_else_eq (n : Nat) (avg : Rat) (st : Vose)
+    (h : ¬ pr st st.large + pr st st.small - avg < avg) :
+    voseStepFixed n avg st =
+      ⟨st.prob.set st.large (pr st st.large + pr st st.small - avg),
+       st.alias.set st.small st.large,
+       scanFrom (fun i => decide ((st.prob.set st.large
+          (pr st st.large + pr st st.small - avg)).getD i 0 ≥ avg) ||
+          (st.alias.set st.small st.large).getD i 0 != n) n n (st.cp + 1),
+       st.large,
+       scanFrom (fun i => decide ((st.prob.set st.large
+          (pr st st.large + pr st st.small - avg)).getD i 0 ≥ avg) ||
+          (st.alias.set st.small st.large).getD i 0 != n) n n (st.cp + 1)⟩ := by
+  unfold voseStepFixed
+  exact if_neg h
+
+/-- everything the invariant proof needs to know about one iteration -/
+theorem vf_step_facts (n : Nat) (avg : Rat) (st : Vose)
+    (hlp : st.prob.length = n) (hla : st.alias.length = n)
+    (hs : st.small < n) (hL : st.large < n) :
+    (voseStepFixed n avg st).prob.length = n ∧ (voseStepFixed n avg st).alias.length = n ∧
+    (∀ i, pr (voseStepFixed n avg st) i =
+        if i = st.large then pr st st.large + pr st st.small - avg else pr st i) ∧
+    (∀ i, al (voseStepFixed n avg st) i = if i = st.small then st.large else al st i) ∧
+    ((pr st st.large + pr st st.small - avg < avg ∧
+        (voseStepFixed n avg st).small = st.large ∧ (voseStepFixed n avg st).cp = st.cp ∧
+        (voseStepFixed n avg st).large =
+          scanFrom (fun i => decide (pr (voseStepFixed n avg st) i < avg)) n n (st.large + 1)) ∨
+     (avg ≤ pr st st.large + pr st st.small - avg ∧
+        (voseStepFixed n avg st).large = st.large ∧
+        (voseStepFixed n avg st).cp = (voseStepFixed n avg st).small ∧
+        (voseStepFixed n avg st).small =
+          scanFrom (fun i => decide (pr (voseStepFixed n avg st) i ≥ avg) ||
+            al (voseStepFixed n avg st) i != n) n n (st.cp + 1))) := by
+  have hprob : (voseStepFixed n avg st).prob =
+      st.prob.set st.large (pr st st.large + pr st st.small - avg) := by
+    by_cases h : pr st st.large + pr st st.small - avg < avg
+    · rw [vf_step_if_eq n avg st h]
+    · rw [vf_step_else_eq n avg st h]
+  have halias : (voseStepFixed n avg st).alias = st.alias.set st.small st.large := by
+    by_cases h : pr st st.large + pr st st.small - avg < avg
+    · rw [vf_step_if_eq n avg st h]
+    · rw [vf_step_else_eq n avg st h]
+  refine ⟨by rw [hprob, List.length_set, hlp], by rw [halias, List.length_set, hla], ?_, ?_, ?_⟩
+  · intro i
+    show (voseStepFixed n avg st).prob.getD i 0 = _
+    rw [hprob, vf_getD_set]
+    by_cases h : i = st.large
+    · rw [if_pos h, if_pos ⟨h.symm, by omega⟩]
+    · rw [if_neg h, if_neg (fun hh => h hh.1.symm)]; rfl
+  · intro i
+    show (voseStepFixed n avg st).alias.getD i 0 = _
+    rw [halias, vf_getD_set]
+    by_cases h : i = st.small
+    · rw [if_pos h, if_pos ⟨h.symm, by omega⟩]
+    · rw [if_neg h, if_neg (fun hh => h hh.1.symm)]; rfl
+  · by_cases h : pr st st.large + pr st st.small - avg < avg
+    · left
+      refine ⟨h, ?_, ?_, ?_⟩ <;> (rw [vf_step_if_eq n avg st h]; try rfl)
+    · right
+      refine ⟨not_lt.mp h, ?_, ?_, ?_⟩ <;> (rw [vf_step_else_eq n avg st h]; try rfl)
+
+/-! ## the loop invariant -/
+
+structure vf_Inv (p : List Rat) (n : Nat) (avg : Rat) (st : Vose) : Prop where
+  lp : st.prob.length = n
+  la : st.alias.length = n
+  i1 : ∀ j, j < n → p.getD j 0 =
+        pr st j + ∑ i ∈ Finset.range n, (if al st i = j then avg - pr st i else 0)
+  i2 : ∀ i, i < n → al st i ≠ n → al st i < n ∧ pr st i < avg
+  i0 : ∀ i, i < n → 0 ≤ pr st i
+  i4 : ∀ i, i < st.large → i < n → pr st i < avg
+  i5 : ∀ i, i < n → al st i = n → pr st i < avg → i = st.small ∨ st.cp < i
+  i7 : st.small < n → al st st.small = n ∧ pr st st.small < avg
+  i8 : st.large < n → avg ≤ pr st st.large
+  bl : st.large ≤ n
+  bc : st.cp ≤ n
+  b9 : n ≤ st.small → n ≤ st.cp
+  b10 : st.small < n → st.cp < n
+
+theorem vf_step_inv (p : List Rat) (n : Nat) (avg : Rat) (st : Vose)
+    (hn : vf_Inv p n avg st) (hs : st.small < n) (hL : st.large < n) :
+    vf_Inv p n avg (voseStepFixed n avg st) ∧
+    (n - (voseStepFixed n avg st).large) + (n - (voseStepFixed n avg st).cp) <
+      (n - st.large) + (n - st.cp) := by
+  obtain ⟨hlp', hla', hpr, hal, hbr⟩ := vf_step_facts n avg st hn.lp hn.la hs hL
+  generalize voseStepFixed n avg st = st' at *
+  obtain ⟨h7a, h7p⟩ := hn.i7 hs
+  have h8 := hn.i8 hL
+  have h0s := hn.i0 _ hs
+  have hLun : al st st.large = n := by
+    by_contra h
+    have := (hn.i2 _ hL h).2
+    linarith
+  have hsL : st.small ≠ st.large := by
+    intro h; rw [h] at h7p; linarith
+  have hcp := hn.b10 hs
+  have hpl0 : 0 ≤ pr st st.large + pr st st.small - avg := by linarith
+  -- clauses common to both branches
+  have c1 : ∀ j, j < n → p.getD j 0 =
+        pr st' j + ∑ i ∈ Finset.range n, (if al st' i = j then avg - pr st' i else 0) := by
+    intro j hj
+    have hterm : ∀ i ∈ Finset.range n, (if al st' i = j then avg - pr st' i else 0) =
+        (if al st i = j then avg - pr st i else 0) +
+          (if i = st.small then (if st.large = j then avg - pr st st.small else 0) else 0) := by
+      intro i _
+      rw [hal i, hpr i]
+      by_cases his : i = st.small
+      · subst his
+        rw [if_pos rfl, if_pos rfl, if_neg hsL, h7a, if_neg (by omega : ¬ n = j), zero_add]
+      · rw [if_neg his, if_neg his, add_zero]
+        by_cases hiL : i = st.large
+        · subst hiL
+          rw [hLun, if_neg (by omega : ¬ n = j), if_neg (by omega : ¬ n = j)]
+        · rw [if_neg hiL]
+    rw [Finset.sum_congr rfl hterm, Finset.sum_add_distrib, Finset.sum_ite_eq',
+      if_pos (Finset.mem_range.mpr hs), hn.i1 j hj, hpr j]
+    by_cases hjL : j = st.large
+    · rw [if_pos hjL, if_pos hjL.symm, hjL]; ring
+    · rw [if_neg hjL, if_neg (fun h => hjL h.symm)]; ring
+  have c2 : ∀ i, i < n → al st' i ≠ n → al st' i < n ∧ pr st' i < avg := by
+    intro i hi
+    rw [hal i, hpr i]
+    by_cases his : i = st.small
+    · subst his
+      rw [if_pos rfl, if_neg hsL]
+      exact fun _ => ⟨hL, h7p⟩
+    · rw [if_neg his]
+      intro h
+      have hiL : i ≠ st.large := by
+        intro h'; subst h'; exact h hLun
+      rw [if_neg hiL]
+      exact hn.i2 i hi h
+  have c0 : ∀ i, i < n → 0 ≤ pr st' i := by
+    intro i hi
+    rw [hpr i]
+    split
+    · exact hpl0
+    · exact hn.i0 i hi
+  have hals : al st' st.small = st.large := by rw [hal, if_pos rfl]
+  have halL : al st' st.large = n := by rw [hal, if_neg (fun h => hsL h.symm), hLun]
+  have hprL : pr st' st.large = pr st st.large + pr st st.small - avg := by rw [hpr, if_pos rfl]
+  rcases hbr with ⟨hlt, hsm, hc, hlg⟩ | ⟨hge, hlg, hc, hsm⟩
+  · -- if-branch
+    obtain ⟨s1, s2, s3, s4⟩ :=
+      vf_scan (fun i => decide (pr st' i < avg)) n n (st.large + 1) (by omega)
+    rw [← hlg] at s1 s2 s3 s4
+    have s2' := s2 (by omega)
+    refine ⟨⟨hlp', hla', c1, c2, c0, ?_, ?_, ?_, ?_, s2', by rw [hc]; exact hn.bc, ?_, ?_⟩, ?_⟩
+    · intro i hi hin
+      by_cases h1 : i < st.large
+      · rw [hpr, if_neg (by omega)]; exact hn.i4 i h1 hin
+      · by_cases h2 : i = st.large
+        · rw [h2, hprL]; exact hlt
+        · simpa using s3 i (by omega) hi
+    · intro i hi hai hpi
+      rw [hsm, hc]
+      by_cases h2 : i = st.large
+      · exact Or.inl h2
+      · right
+        have his : i ≠ st.small := by
+          intro h; rw [h, hals] at hai; omega
+        rw [hal, if_neg his] at hai
+        rw [hpr, if_neg h2] at hpi
+        rcases hn.i5 i hi hai hpi with h | h
+        · exact absurd h his
+        · exact h
+    · intro _
+      rw [hsm]
+      exact ⟨halL, by rw [hprL]; exact hlt⟩
+    · intro h
+      have := s4 h
+      simpa using this
+    · intro h; rw [hsm] at h; omega
+    · intro _; rw [hc]; exact hcp
+    · rw [hc]; omega
+  · -- else-branch
+    obtain ⟨s1, s2, s3, s4⟩ :=
+      vf_scan (fun i => decide (pr st' i ≥ avg) || al st' i != n) n n (st.cp + 1) (by omega)
+    rw [← hsm] at s1 s2 s3 s4
+    have s2' := s2 (by omega)
+    refine ⟨⟨hlp', hla', c1, c2, c0, ?_, ?_, ?_, ?_, by rw [hlg]; exact hn.bl,
+      by rw [hc]; exact s2', ?_, ?_⟩, ?_⟩
+    · intro i hi hin
+      rw [hlg] at hi
+      rw [hpr, if_neg (by omega)]; exact hn.i4 i hi hin
+    · intro i hi hai hpi
+      rw [hc]
+      by_contra hcon
+      have hlt : i < st'.small := by omega
+      have his : i ≠ st.small := by
+        intro h; rw [h, hals] at hai; omega
+      have hiL : i ≠ st.large := by
+        intro h; rw [h, hprL] at hpi; linarith
+      have hai' := hai
+      rw [hal, if_neg his] at hai'
+      have hpi' := hpi
+      rw [hpr, if_neg hiL] at hpi'
+      rcases hn.i5 i hi hai' hpi' with h | h
+      · exact his h
+      · have := s3 i (by omega) hlt
+        simp only [Bool.or_eq_true, decide_eq_true_eq, bne_iff_ne] at this
+        rcases this with h' | h'
+        · linarith
+        · exact h' hai
+    · intro h
+      have := s4 h
+      simp only [Bool.or_eq_false_iff, decide_eq_false_iff_not, bne_eq_false_iff_eq] at this
+      exact ⟨this.2, not_le.mp this.1⟩
+    · intro _
+      rw [hlg, hprL]; exact hge
+    · intro h; rw [hc]; exact h
+    · intro h; rw [hc]; exact h
+    · rw [hlg, hc]; omega
+
+/-! ## the invariant holds initially, and the loop reaches an exit state that satisfies it -/
+
+theorem vf_init_inv (p : List Rat) (avg : Rat) (hnn : ∀ x ∈ p, 0 ≤ x) :
+    vf_Inv p p.length avg (vf_init p avg) := by
+  have hpr : ∀ i, pr (vf_init p avg) i = p.getD i 0 := fun _ => rfl
+  have hal := vf_init_al p avg
+  have hsm : (vf_init p avg).small =
+      scanFrom (fun i => decide (p.getD i 0 ≥ avg)) p.length p.length 0 := rfl
+  have hcp : (vf_init p avg).cp = (vf_init p avg).small := rfl
+  have hlg : (vf_init p avg).large =
+      scanFrom (fun i => decide (p.getD i 0 < avg)) p.length p.length 0 := rfl
+  obtain ⟨_, a2, a3, a4⟩ :=
+    vf_scan (fun i => decide (p.getD i 0 ≥ avg)) p.length p.length 0 (by omega)
+  obtain ⟨_, b2, b3, b4⟩ :=
+    vf_scan (fun i => decide (p.getD i 0 < avg)) p.length p.length 0 (by omega)
+  rw [← hsm] at a2 a3 a4
+  rw [← hlg] at b2 b3 b4
+  refine ⟨rfl, by simp [vf_init], ?_, ?_, ?_, ?_, ?_, ?_, ?_, b2 (Nat.zero_le _),
+    by rw [hcp]; exact a2 (Nat.zero_le _), by rw [hcp]; exact id, by rw [hcp]; exact id⟩
+  · intro j hj
+    rw [Finset.sum_eq_zero, add_zero, hpr]
+    intro i hi
+    rw [hal i (Finset.mem_range.mp hi), if_neg (by omega)]
+  · intro i hi h
+    exact absurd (hal i hi) h
+  · intro i hi
+    rw [hpr]; exact hnn _ (vf_getD_mem p i hi)
+  · intro i hi _
+    rw [hpr]
+    simpa using b3 i (Nat.zero_le _) hi
+  · intro i hi _ hpi
+    rw [hcp]
+    by_contra hcon
+    have := a3 i (Nat.zero_le _) (by omega)
+    rw [hpr] at hpi
+    simp only [ge_iff_le, decide_eq_true_eq] at this
+    linarith
+  · intro h
+    refine ⟨hal _ h, ?_⟩
+    have := a4 h
+    rw [hpr]
+    simpa using this
+  · intro h
+    have := b4 h
+    rw [hpr]
+    simpa using this
+
+theorem vf_loop_inv (p : List Rat) (n : Nat) (avg : Rat) : ∀ (fuel : Nat) (st : Vose),
+    vf_Inv p n avg st → (n - st.large) + (n - st.cp) < fuel →
+    vf_Inv p n avg (voseLoopFixed n avg fuel st) ∧
+    ¬ ((voseLoopFixed n avg fuel st).small < n ∧ (voseLoopFixed n avg fuel st).large < n)
+  | 0, st, _, h => by omega
+  | fuel + 1, st, hn, h => by
+    simp only [voseLoopFixed]
+    by_cases hc : (decide (st.small < n) && decide (st.large < n)) = true
+    · rw [if_pos hc]
+      have hc' : st.small < n ∧ st.large < n := by simpa using hc
+      obtain ⟨h1, h2⟩ := vf_step_inv p n avg st hn hc'.1 hc'.2
+      exact vf_loop_inv p n avg fuel _ h1 (by omega)
+    · rw [if_neg hc]
+      refine ⟨hn, ?_⟩
+      simpa using hc
+
+/-! ## at exit every unassigned entry holds exactly `avg` -/
+
+theorem vf_exit_unassigned (p : List Rat) (avg : Rat) (st : Vose)
+    (hn : vf_Inv p p.length avg st)
+    (hex : ¬ (st.small < p.length ∧ st.large < p.length))
+    (hsum : p.sum = 1) (havg : (p.length : Rat) * avg = 1) :
+    ∀ i, i < p.length → al st i = p.length → pr st i = avg := by
+  have hS : ∑ j ∈ Finset.range p.length, p.getD j 0 = 1 := by rw [← vf_sum_getD]; exact hsum
+  have h1 : ∑ j ∈ Finset.range p.length, p.getD j 0 =
+      ∑ j ∈ Finset.range p.length, pr st j +
+        ∑ j ∈ Finset.range p.length, ∑ i ∈ Finset.range p.length,
+          (if al st i = j then avg - pr st i else 0) := by
+    rw [← Finset.sum_add_distrib]
+    exact Finset.sum_congr rfl (fun j hj => hn.i1 j (Finset.mem_range.mp hj))
+  rw [Finset.sum_comm] at h1
+  have h2 : ∀ i ∈ Finset.range p.length,
+      ∑ j ∈ Finset.range p.length, (if al st i = j then avg - pr st i else 0) =
+        if al st i = p.length then 0 else avg - pr st i := by
+    intro i hi
+    rw [Finset.sum_ite_eq]
+    by_cases h : al st i = p.length
+    · rw [if_pos h, h, if_neg Finset.notMem_range_self]
+    · rw [if_neg h, if_pos (Finset.mem_range.mpr (hn.i2 i (Finset.mem_range.mp hi) h).1)]
+  rw [Finset.sum_congr rfl h2, hS] at h1
+  have hT : ∑ i ∈ Finset.range p.length,
+      (if al st i = p.length then avg - pr st i else 0) = 0 := by
+    have : ∀ i ∈ Finset.range p.length, (if al st i = p.length then avg - pr st i else 0) =
+        avg - pr st i - (if al st i = p.length then 0 else avg - pr st i) := by
+      intro i _
+      split <;> ring
+    rw [Finset.sum_congr rfl this, Finset.sum_sub_distrib, Finset.sum_sub_distrib,
+      Finset.sum_const, Finset.card_range, nsmul_eq_mul, havg]
+    linarith
+  by_cases hl : st.large < p.length
+  · have hs : p.length ≤ st.small := by omega
+    have hc := hn.b9 hs
+    have hall := (Finset.sum_eq_zero_iff_of_nonpos (by
+      intro i hi
+      have hi' := Finset.mem_range.mp hi
+      split
+      · rename_i ha
+        by_contra hcon
+        have hlt : pr st i < avg := by linarith
+        rcases hn.i5 i hi' ha hlt with h | h <;> omega
+      · exact le_refl _)).mp hT
+    intro i hi ha
+    have := hall i (Finset.mem_range.mpr hi)
+    rw [if_pos ha] at this
+    linarith
+  · have hall := (Finset.sum_eq_zero_iff_of_nonneg (by
+      intro i hi
+      have hi' := Finset.mem_range.mp hi
+      split
+      · have := hn.i4 i (by omega) hi'
+        linarith
+      · exact le_refl _)).mp hT
+    intro i hi ha
+    have := hall i (Finset.mem_range.mpr hi)
+    rw [if_pos ha] at this
+    linarith
+
+/-! ## (B) the table gives every index exactly its probability -/
+
+theorem vf_clamp_id (t : Rat) (h0 : 0 ≤ t) (h1 : t ≤ 1) : clamp01 t = t := by
+  unfold clamp01
+  rw [if_neg (not_lt.mpr h0), if_neg (not_lt.mpr h1)]
+
+theorem vf_clamp_ge (t : Rat) (h1 : 1 ≤ t) : clamp01 t = 1 := by
+  unfold clamp01
+  rw [if_neg (not_lt.mpr (by linarith))]
+  split
+  · rfl
+  · linarith
+
+theorem vose_correct (p : List Rat) (hne : p ≠ []) (hnn : ∀ x ∈ p, 0 ≤ x) (hsum : p.sum = 1) :
+    ∀ j, j < p.length →
+      aliasMass (voseBuildFixed p (1 / (p.length : Rat))).1
+        (voseBuildFixed p (1 / (p.length : Rat))).2 j = p.getD j 0 := by
+  intro j hj
+  have hlen : 0 < p.length := List.length_pos_of_ne_nil hne
+  have hnq : (0 : Rat) < (p.length : Rat) := by exact_mod_cast hlen
+  have hn0 : (p.length : Rat) ≠ 0 := ne_of_gt hnq
+  have hn1 : (1 : Rat) ≤ (p.length : Rat) := by exact_mod_cast hlen
+  generalize havg : 1 / (p.length : Rat) = avg
+  have havg' : (p.length : Rat) * avg = 1 := by rw [← havg]; field_simp
+  obtain ⟨hn, hex⟩ := vf_loop_inv p p.length avg (2 * p.length + 1) (vf_init p avg)
+    (vf_init_inv p avg hnn) (by omega)
+  change vf_Inv p p.length avg (vf_exit p avg) at hn
+  change ¬ ((vf_exit p avg).small < p.length ∧ (vf_exit p avg).large < p.length) at hex
+  have hE := vf_exit_unassigned p avg _ hn hex hsum havg'
+  rw [vf_build_eq]
+  generalize vf_exit p avg = st at hn hex hE
+  unfold aliasMass
+  simp only [List.map_map, List.length_map, List.length_range]
+  rw [vf_sum_range_map]
+  have hterm : ∀ i ∈ Finset.range p.length,
+      ((if i = j then clamp01 (((List.range p.length).map
+          ((fun x => x * (p.length : Rat)) ∘
+            fun x => if (al st x == p.length) = true then 1 else pr st x)).getD i 0) else 0) +
+       (if ((List.range p.length).map
+          (fun x => if (al st x == p.length) = true then x else al st x)).getD i 0 = j
+        then 1 - clamp01 (((List.range p.length).map
+          ((fun x => x * (p.length : Rat)) ∘
+            fun x => if (al st x == p.length) = true then 1 else pr st x)).getD i 0) else 0)) =
+      ((if i = j then pr st i else 0) + (if al st i = j then avg - pr st i else 0)) *
+        (p.length : Rat) := by
+    intro i hi
+    have hi' := Finset.mem_range.mp hi
+    rw [vf_getD_range_map _ _ _ _ hi', vf_getD_range_map _ _ _ _ hi']
+    simp only [Function.comp_apply, beq_iff_eq]
+    by_cases ha : al st i = p.length
+    · rw [if_pos ha, if_pos ha, vf_clamp_ge _ (by linarith), ha, if_neg (by omega : ¬ p.length = j),
+        hE i hi' ha]
+      split_ifs <;> linarith
+    · obtain ⟨_, hlt⟩ := hn.i2 i hi' ha
+      have h0 := hn.i0 i hi'
+      have hm0 : 0 ≤ pr st i * (p.length : Rat) := mul_nonneg h0 (le_of_lt hnq)
+      have hm1 : pr st i * (p.length : Rat) ≤ 1 := by
+        have := mul_le_mul_of_nonneg_right (le_of_lt hlt) (le_of_lt hnq)
+        linarith
+      rw [if_neg ha, if_neg ha, vf_clamp_id _ hm0 hm1]
+      split_ifs <;> linarith
+  rw [Finset.sum_congr rfl hterm, ← Finset.sum_mul, Finset.sum_add_distrib, Finset.sum_ite_eq',
+    if_pos (Finset.mem_range.mpr hj), ← hn.i1 j hj, mul_div_assoc, div_self hn0, mul_one]
+
+/-- test: the statement's conclusion evaluated on two concrete distributions -/
+example : (List.range 3).map (aliasMass
+      (voseBuildFixed [1/2, 1/4, 1/4] (1 / (([1/2, 1/4, 1/4] : List Rat).length : Rat))).1
+      (voseBuildFixed [1/2, 1/4, 1/4] (1 / (([1/2, 1/4, 1/4] : List Rat).length : Rat))).2) =
+    [1/2, 1/4, 1/4] := by decide +kernel
+
+example : (List.range 4).map (aliasMass
+      (voseBuildFixed [0, 1/4, 1/4, 1/2] (1 / (([0, 1/4, 1/4, 1/2] : List Rat).length : Rat))).1
+      (voseBuildFixed [0, 1/4, 1/4, 1/2] (1 / (([0, 1/4, 1/4, 1/2] : List Rat).length : Rat))).2) =
+    [0, 1/4, 1/4, 1/2] := by decide +kernel
+
+/-! ## (C) the constructor as it is: wrong masses, but sizes and alias range are always fine -/
+
+/-- sizes are `n` and every alias entry is `< n` -/
+def vf_Shape (n : Nat) (prob : List Rat) (als : List Nat) : Prop :=
+  prob.length = n ∧ als.length = n ∧ ∀ a ∈ als, a < n
+
+theorem vf_shape_set (n : Nat) (prob : List Rat) (als : List Nat) (h : vf_Shape n prob als)
+    (i k v : Nat) (q : Rat) (hv : v < n) : vf_Shape n (prob.set i q) (als.set k v) := by
+  obtain ⟨h1, h2, h3⟩ := h
+  refine ⟨by rw [List.length_set, h1], by rw [List.length_set, h2], fun a ha => ?_⟩
+  rcases List.mem_or_eq_of_mem_set ha with h | h
+  · exact h3 a h
+  · rw [h]; exact hv
+
+theorem vf_step_cur (n : Nat) (avg : Rat) (st : Vose) :
+    (voseStep n avg st).prob = st.prob.set st.large (pr st st.large + pr st st.small - avg) ∧
+    (voseStep n avg st).alias = st.alias.set st.small st.large := by
+  unfold voseStep
+  simp only []
+  split <;> exact ⟨rfl, rfl⟩
+
+theorem vf_loop_cur (n : Nat) (avg : Rat) : ∀ (fuel : Nat) (st : Vose),
+    vf_Shape n st.prob st.alias →
+    vf_Shape n (voseLoop n avg fuel st).prob (voseLoop n avg fuel st).alias
+  | 0, st, h => by simpa [voseLoop] using h
+  | fuel + 1, st, h => by
+    simp only [voseLoop]
+    by_cases hc : (decide (st.small < n) && decide (st.large < n)) = true
+    · rw [if_pos hc]
+      have hc' : st.small < n ∧ st.large < n := by simpa using hc
+      apply vf_loop_cur n avg fuel
+      rw [(vf_step_cur n avg st).1, (vf_step_cur n avg st).2]
+      exact vf_shape_set n _ _ h _ _ _ _ hc'.2
+    · rw [if_neg hc]; exact h
+
+theorem vf_sweep_cur (n : Nat) : ∀ (fuel x : Nat) (prob : List Rat) (als : List Nat),
+    vf_Shape n prob als →
+    vf_Shape n (voseSweep n fuel x prob als).1 (voseSweep n fuel x prob als).2
+  | 0, x, prob, als, h => by simpa [voseSweep] using h
+  | fuel + 1, x, prob, als, h => by
+    simp only [voseSweep]
+    by_cases hx : x < n
+    · rw [if_pos hx]
+      exact vf_sweep_cur n fuel _ _ _ (vf_shape_set n _ _ h _ _ _ _ hx)
+    · rw [if_neg hx]; exact h
+
+theorem vf_build_cur (p : List Rat) (avg : Rat) (hne : p ≠ []) :
+    vf_Shape p.length (voseBuild p avg).1 (voseBuild p avg).2 := by
+  have hlen : 0 < p.length := List.length_pos_of_ne_nil hne
+  have h0 : vf_Shape p.length p (List.replicate p.length 0) :=
+    ⟨rfl, List.length_replicate, fun a ha => by rw [List.eq_of_mem_replicate ha]; exact hlen⟩
+  have h1 := vf_loop_cur p.length avg (2 * p.length + 1)
+    ⟨p, List.replicate p.length 0,
+      scanFrom (fun i => p.getD i 0 ≥ avg) p.length p.length 0,
+      scanFrom (fun i => p.getD i 0 < avg) p.length p.length 0,
+      scanFrom (fun i => p.getD i 0 ≥ avg) p.length p.length 0⟩ h0
+  have h2 := vf_sweep_cur p.length (p.length + 1) (min _ _) _ _ h1
+  obtain ⟨a, b, c⟩ := h2
+  exact ⟨by simpa [voseBuild] using a, b, c⟩
+
+theorem vose_current_lengths (p : List Rat) (avg : Rat) :
+    (voseBuild p avg).1.length = p.length ∧ (voseBuild p avg).2.length = p.length := by
+  by_cases hne : p = []
+  · subst hne; decide
+  · exact ⟨(vf_build_cur p avg hne).1, (vf_build_cur p avg hne).2.1⟩
+
+theorem vose_current_alias_in_range (p : List Rat) (avg : Rat) (hne : p ≠ []) :
+    ∀ a ∈ (voseBuild p avg).2, a < p.length :=
+  (vf_build_cur p avg hne).2.2
+
+/-! ## (D) every well-shaped table has total mass one -/
+
+theorem vf_getD_mem_nat (l : List Nat) (i : Nat) (h : i < l.length) : l.getD i 0 ∈ l := by
+  rw [List.getD_eq_getElem?_getD, List.getElem?_eq_getElem h]
+  simp
+
+theorem aliasMass_total (prob : List Rat) (als : List Nat) (hlen : als.length = prob.length)
+    (hne : prob ≠ []) (hr : ∀ a ∈ als, a < prob.length) :
+    ((List.range prob.length).map (aliasMass prob als)).sum = 1 := by
+  have hpos : 0 < prob.length := List.length_pos_of_ne_nil hne
+  have hn0 : (prob.length : Rat) ≠ 0 := by exact_mod_cast (Nat.pos_iff_ne_zero.mp hpos)
+  rw [vf_sum_range_map]
+  unfold aliasMass
+  simp only [vf_sum_range_map]
+  rw [← Finset.sum_div, Finset.sum_comm]
+  have hin : ∀ i ∈ Finset.range prob.length,
+      ∑ j ∈ Finset.range prob.length,
+        ((if i = j then clamp01 (prob.getD i 0) else 0) +
+         (if als.getD i 0 = j then 1 - clamp01 (prob.getD i 0) else 0)) = 1 := by
+    intro i hi
+    have hi' := Finset.mem_range.mp hi
+    have ha : als.getD i 0 ∈ Finset.range prob.length :=
+      Finset.mem_range.mpr (hr _ (vf_getD_mem_nat als i (by omega)))
+    rw [Finset.sum_add_distrib, Finset.sum_ite_eq, Finset.sum_ite_eq, if_pos hi, if_pos ha]
+    ring
+  rw [Finset.sum_congr rfl hin, Finset.sum_const, Finset.card_range, nsmul_eq_mul, mul_one,
+    div_self hn0]
+
+/-! ## (E) corollaries for the repaired constructor -/
+
+/-- whatever `avg` is used (e.g. the rounded `1.0/n`) and whether or not the input sums to one
+    exactly (`isProb` only checks it to a tolerance): right sizes, aliases in range, total mass one -/
+theorem vose_correct_isProb_in_range (p : List Rat) (avg : Rat) (hne : p ≠ [])
+    (_h : isProb p = true) :
+    (voseBuildFixed p avg).1.length = p.length ∧ (voseBuildFixed p avg).2.length = p.length ∧
+    (∀ a ∈ (voseBuildFixed p avg).2, a < p.length) ∧
+    ((List.range p.length).map
+      (aliasMass (voseBuildFixed p avg).1 (voseBuildFixed p avg).2)).sum = 1 := by
+  obtain ⟨h1, h2⟩ := vose_fixed_lengths p avg
+  have h3 := vose_fixed_alias_in_range p avg
+  refine ⟨h1, h2, h3, ?_⟩
+  have := aliasMass_total (voseBuildFixed p avg).1 (voseBuildFixed p avg).2 (by rw [h1, h2])
+    (by intro h; rw [h] at h1; exact hne (List.length_eq_zero_iff.mp h1.symm))
+    (by rw [h1]; exact h3)
+  rwa [h1] at this
+
+/-- for an exact distribution the decidable table checker accepts the repaired table at tolerance 0 -/
+theorem vose_correct_tableOk (p : List Rat) (hne : p ≠ []) (hnn : ∀ x ∈ p, 0 ≤ x)
+    (hsum : p.sum = 1) :
+    aliasTableOk 0 p (voseBuildFixed p (1 / (p.length : Rat))).1
+      (voseBuildFixed p (1 / (p.length : Rat))).2 = true := by
+  obtain ⟨h1, h2⟩ := vose_fixed_lengths p (1 / (p.length : Rat))
+  have h3 := vose_fixed_alias_in_range p (1 / (p.length : Rat))
+  have h4 := vose_correct p hne hnn hsum
+  unfold aliasTableOk
+  simp only [Bool.and_eq_true, beq_iff_eq, List.all_eq_true, decide_eq_true_eq, List.mem_range]
+  refine ⟨⟨⟨h1, h2⟩, h3⟩, fun j hj => ?_⟩
+  rw [h4 j hj, sub_self]
+  simp [absQ]
+
 end AITB.Sampling
